@@ -237,7 +237,37 @@ DUP_CTC_SETS = [
     [('IMPLIES', 'Gui', 'Core'), ('IMPLIES', 'Gui', 'Core')],
     [('EXCLUDES', 'Gui', 'GUI'), ('EXCLUDES', 'GUI', 'Gui'), ('OR', ('NOT', 'Gui'), 'Core'), ('OR', ('NOT', 'GUI'), 'Core'), ('OR', ('NOT', 'Gui'), 'Core')],
     [('REQUIRES', 'Core', 'Gui'), ('EXCLUDES', 'Core', 'GUI'), ('REQUIRES', 'Core', 'GUI'), ('EXCLUDES', 'Core', 'Gui')],
+    # twelve distinct constraints (named n0..n11: 'n10' sorts before 'n2', readers that rename by position write 'Constraint 10'):
+    # a writer or reader that orders constraints by name reshuffles them from the eleventh on
+    [('IMPLIES', 'Gui', 'Core'), ('IMPLIES', 'Core', 'Gui'), ('EXCLUDES', 'Gui', 'Core'), ('OR', 'Gui', 'Core'), ('AND', 'Gui', 'Core'),
+     ('IMPLIES', 'GUI', 'Core'), ('IMPLIES', 'Core', 'GUI'), ('OR', 'GUI', 'Core'), ('AND', 'GUI', 'Core'), ('OR', ('NOT', 'Gui'), 'GUI'),
+     ('OR', 'Gui', ('NOT', 'GUI')), ('EQUIVALENCE', 'Gui', 'Core')],
 ]
+
+
+def impl_pairs(names=('F0', 'F1', 'F2')):
+    """conjunctions of two implications over literals and negated literals (depth 3): (x => y) & (z => w)."""
+    lits = list(names) + [('NOT', n) for n in names]
+    return [('AND', ('IMPLIES', x, y), ('IMPLIES', z, w)) for x in lits for y in lits for z in lits for w in lits]
+
+
+def impl_pairs_batch(modname, lo, hi, label):
+    """native: <module>.cycle_tree(tree) over the impl_pairs family."""
+    import importlib
+    fn = importlib.import_module(modname).cycle_tree
+    res = {'instances': 0, 'nontrivial': 0, 'violations': [], 'native_runs': 0}
+    fam = impl_pairs()
+    for t in fam[lo:hi]:
+        res['instances'] += 1
+        res['native_runs'] += 1
+        res['nontrivial'] += 1
+        bad = fn(t)
+        if bad:
+            res['violations'].append({'label': label, 'detail': bad[0][:600], 'replay_func': 'cycle_tree', 'replay_args': [t]})
+            if len(res['violations']) >= 4:
+                return res
+    res['sample'] = {'family': '(x => y) & (z => w) over literals and negated literals', 'tree': repr(fam[lo:hi][-1]) if fam[lo:hi] else None}
+    return res
 
 
 def dup_models():
